@@ -14,8 +14,8 @@ Proved for every `n`, `c`, and every valid starting cell — no bound on the num
 columns, rows or presses — forwards (`menu-complete`) and backwards (`menu-complete-backward`:
 `tabBack`, a move back and on `done` the last cell). The hand-over between SEVERAL groups (tags) is proved
 forwards on the menu model itself (`Menu.select`, the function the differential runs): any number of
-plain groups of any shapes. Aliased (shared-description) groups and the backward hand-over between groups
-are decided by the correspondence and by sessions, not by a theorem. -/
+plain groups of any shapes, forwards and backwards. Aliased (shared-description) groups are decided by the
+correspondence and by sessions, not by a theorem. -/
 namespace RLV.Props.C15
 open RLV RLV.Menu2 RLV.Core
 
@@ -128,6 +128,32 @@ example : (match Menu.select menu2 1 0 with
     | .ok (m1, some v) => v == 20 && (match Menu.presses 3 m1 with
         | .ok m4 => (match Menu.selected (m4.getD 0 Menu.dflt) with | .ok w => w == 11 | _ => false) &&
             (m4.getD 0 Menu.dflt).isCurrent
+        | _ => false)
+    | _ => false) = true := by decide
+
+/-- One `menu-complete-backward` over any number of groups moves to the PREVIOUS candidate of the whole
+menu — the previous one of the current group, the last of the previous group before the first one, the
+last of the last group before the very first —, never fails, returns a candidate, keeps the menu well
+formed: position `(p - 1) mod N`. With `tab_over_groups_advances_by_one_mod_total`: the backward cycle
+visits the same candidates in the opposite order, each exactly once. -/
+theorem shift_tab_over_groups_goes_back_by_one_mod_total (m : Menu.Menu) (ns cs : List Nat) (i : Nat)
+    (h : Menu.MInv m ns cs i) (hlen : ns.length = m.length) :
+    ∃ m' v i', Menu.select m (-1) 0 = .ok (m', some v) ∧ Menu.MInv m' ns cs i' ∧
+      Menu.gpos m' ns cs i' = (Menu.gpos m ns cs i - 1) % (ns.sum : Int) := by
+  obtain ⟨m', v, i', h1, h2, _, h3⟩ := Menu.select_back_gpos m ns cs i h hlen
+  exact ⟨m', v, i', h1, h2, h3⟩
+
+-- non-vacuity: from the first candidate of the second group of `menu2'` a backward press goes to the
+-- last candidate of the first group (12), from the first of the first group to the last of the last (21)
+def menu2' : Menu.Menu :=
+  [{ rows := [[10, 11], [12]], ncols := 2, maxX := 2, maxY := 2 },
+   { rows := [[20, 21]], ncols := 2, maxX := 2, maxY := 1, posX := 0, posY := 0, isCurrent := true }]
+example : (match Menu.select menu2' (-1) 0 with
+    | .ok (m1, some v) => v == 12 && (match Menu.select m1 (-1) 0 with
+        | .ok (m2, some w) => w == 11 && (match Menu.select m2 (-1) 0 with
+            | .ok (m3, some x) => x == 10 && (match Menu.select m3 (-1) 0 with
+                | .ok (_, some y) => y == 21 | _ => false)
+            | _ => false)
         | _ => false)
     | _ => false) = true := by decide
 
